@@ -2,6 +2,7 @@
 # benignsweep.sh <dir-with-patch.diff>...: apply each property-preserving change to a scratch worktree of /repo HEAD and run ALL
 # twenty quick checks against it; any exit code other than 0 is a false alarm to be analysed. One line per (change, check).
 export GOFLAGS=-mod=mod GOPROXY=off GOSUMDB=off GOTOOLCHAIN=local
+VH="$(cd "$(dirname "$0")/.." && pwd)"   # the checkout these tools belong to: /verif, or a snapshot of it made by vp run
 mkdir -p /tmp/mut
 k=0
 for d in "$@"; do
@@ -13,11 +14,11 @@ for d in "$@"; do
     if ! git -C $wt apply $d/patch.diff; then echo "$(basename $d) PATCH-DOES-NOT-APPLY"; git -C /repo worktree remove --force $wt; exit; fi
     if ! (cd $wt && go build ./... ) 2>/tmp/mut/bn$k.err; then echo "$(basename $d) DOES-NOT-BUILD $(head -2 /tmp/mut/bn$k.err | tr '\n' ' ')"; git -C /repo worktree remove --force $wt; exit; fi
     for i in $(seq -w 1 20); do
-      res=$(cd /verif && VERIF_REPO=$wt ./check C$i quick 2>&1); rc=$?
+      res=$(cd $VH && VERIF_REPO=$wt ./check C$i quick 2>&1); rc=$?
       echo "$(basename $d) C$i rc=$rc $(echo "$res" | grep "^  C[0-9][0-9]/" | head -1 | cut -c1-220)"
     done
     git -C /repo worktree remove --force $wt
-    rm -f /verif/.work/bin/harness-_tmp_mut_bn$k.test /verif/.work/alt-_tmp_mut_bn$k.*
+    rm -f $VH/.work/bin/harness-_tmp_mut_bn$k.test $VH/.work/alt-_tmp_mut_bn$k.*
   ) > /tmp/mut/benign_$k.out 2>&1 &
   # at most 3 changes in flight
   while [ $(jobs -r | wc -l) -ge 3 ]; do sleep 5; done
